@@ -21,15 +21,12 @@ impl<T> View for Slab<T> {
     uninterp spec fn view(&self) -> Map<usize, T>;
 }
 
-/// the key the next insert will hand out (slab: the head of its free list, or len)
-pub uninterp spec fn slab_next_key<T>(s: Slab<T>) -> usize;
-
 impl<T> Slab<T> {
     #[verifier::external_body]
     pub fn insert(&mut self, val: T) -> (key: usize)
         ensures
-            key == slab_next_key(*old(self)),
             !old(self)@.dom().contains(key),
+            key <= u32::MAX, // ASSUMED: fewer than 2^32 entries are alive (register panics explicitly otherwise: "EffectId overflow")
             final(self)@ == old(self)@.insert(key, val),
     { unimplemented!() }
 
@@ -170,11 +167,9 @@ impl ResolveRegistry {
 //@expect pub fn register<Eff>(&self, effect: Eff) -> Request<Eff::Ffi> where Eff: Effect,
 //@sig fn register<Eff>(&mut self, effect: Eff) -> (r: Request<Eff::Ffi>) where Eff: Effect,
 //@contract
-        requires
-            slab_next_key(old(self).0.inner) <= u32::MAX, // the code panics explicitly otherwise ("EffectId overflow")
         ensures
             !old(self)@.dom().contains(r.id.0 as usize), // [C09/register/id-distinct-from-every-outstanding-id]
-            forall|k: usize| #![auto] old(self)@.dom().contains(k) ==> final(self)@.dom().contains(k) && final(self)@[k] == old(self)@[k], // [C09+C12+C13/register/outstanding-entries-untouched]
+            kept(old(self)@, final(self)@), // [C09+C12+C13/register/outstanding-entries-untouched]
             forall|k: usize| #![auto] final(self)@.dom().contains(k) ==> k == r.id.0 as usize || old(self)@.dom().contains(k), // [C13/register/at-most-one-entry-added]
             r.effect == effect.serialize_spec().0, // [C09/register/payload-is-what-serialize-returned]
             final(self)@.dom().contains(r.id.0 as usize) ==> final(self)@[r.id.0 as usize] == effect.serialize_spec().1, // [C09/register/entry-is-the-effects-own-continuation]
@@ -202,6 +197,125 @@ impl ResolveRegistry {
 //@rule X4.lock-erasure * s/self\s*\.0\s*\.lock\(\)\s*\.expect\("[^"]*"\)/(&mut self.0.inner)/
 //@rule X8.closure-wildcard * s/\|_\|/|_e|/
 //@rule X8.closure-wildcard * s/\|_,/|_k,/
+//@end
+}
+
+// ================================================================== bridge/mod.rs: BridgeWithSerializer::process
+/// dyn erased_serde::Serializer (where the batch of requests is written). `written()` is the
+/// ghost log of what has been serialized into it: one sequence of request ids per batch.
+#[verifier::external_body]
+pub struct ErasedSerializer { _p: u8 }
+impl ErasedSerializer {
+    pub uninterp spec fn written(&self) -> Seq<Seq<u32>>;
+}
+pub mod erased_serde {
+    use super::*;
+    // ASSUMED: returns Ok or Err for any input (bincode/serde_json do not panic, hang or
+    // over-allocate on arbitrary bytes - third party, for all byte strings: out of reach)
+    #[verifier::external_body]
+    pub fn deserialize<T>(d: &mut ErasedDeserializer) -> (r: Result<T, SerdeError>)
+    { unimplemented!() }
+}
+pub open spec fn ids_of<E: Serialize>(v: Seq<Request<E>>) -> Seq<u32> {
+    v.map_values(|r: Request<E>| r.id.0)
+}
+/// `requests.erased_serialize(requests_out)`: erased_serde::Serialize for Vec<Request<_>>
+#[verifier::external_body]
+pub fn erased_serialize<E: Serialize>(requests: &Vec<Request<E>>, out: &mut ErasedSerializer) -> (r: Result<(), SerdeError>)
+    ensures
+        r is Ok ==> final(out).written() == old(out).written().push(ids_of(requests@)),
+{ unimplemented!() }
+
+/// The user's app, as far as the bridge is concerned
+pub trait App {
+    type Event;
+    type Effect: Effect;
+}
+impl<T: Serialize> Serialize for Vec<T> {}
+
+/// crux_core::Core<A>. Its two entry points are extracted and proved in unit Q (local fixpoint,
+/// effects handed over exactly once in order); here they are only "return some effects".
+#[verifier::external_body]
+#[verifier::accept_recursive_types(A)]
+pub struct Core<A: App> { _p: core::marker::PhantomData<A> }
+impl<A: App> Core<A> {
+    #[verifier::external_body]
+    pub fn process_event(&mut self, event: A::Event) -> (r: Vec<A::Effect>)
+    { unimplemented!() }
+    #[verifier::external_body]
+    pub fn process(&mut self) -> (r: Vec<A::Effect>)
+    { unimplemented!() }
+}
+
+/// every entry of a is still in b, unchanged
+pub open spec fn kept(a: Map<usize, ResolveSerialized>, b: Map<usize, ResolveSerialized>) -> bool {
+    forall|k: usize| #[trigger] a.dom().contains(k) ==> b.dom().contains(k) && b[k] == a[k]
+}
+
+// X13: `effects.into_iter().map(|eff| self.registry.register(eff)).collect()` is std's map +
+// collect over a Vec: call the closure on each element front to back and push the results.
+// Written out as that loop (ASSUMED to be what the adapter chain does) and verified against the
+// extracted `register` above.
+#[verifier::exec_allows_no_decreases_clause]
+fn register_all<Eff: Effect>(registry: &mut ResolveRegistry, effects: Vec<Eff>) -> (out: Vec<Request<Eff::Ffi>>)
+    ensures
+        out@.len() == effects@.len(), // [C09/register_all/one-request-per-effect]
+        forall|i: int| #![auto] 0 <= i < out@.len() ==> out@[i].effect == effects@[i].serialize_spec().0, // [C09/register_all/payloads-in-the-cores-order]
+        forall|i: int, j: int| #![auto] 0 <= i < j < out@.len() && kind(effects@[i].serialize_spec().1) != 0 && kind(effects@[j].serialize_spec().1) != 0 ==> out@[i].id.0 != out@[j].id.0, // [C09/register_all/resolvable-requests-of-one-batch-get-pairwise-distinct-ids]
+        forall|i: int| #![auto] 0 <= i < out@.len() ==> !old(registry)@.dom().contains(out@[i].id.0 as usize), // [C09/register_all/ids-are-distinct-from-every-outstanding-id]
+        kept(old(registry)@, final(registry)@), // [C09+C12/register_all/outstanding-entries-untouched]
+{
+    let mut effects = effects;
+    let ghost all = effects@;
+    let mut out: Vec<Request<Eff::Ffi>> = Vec::new();
+    while effects.len() > 0
+        invariant
+            out@.len() + effects@.len() == all.len(),
+            forall|i: int| #![auto] 0 <= i < effects@.len() ==> effects@[i] == all[out@.len() + i],
+            forall|i: int| #![auto] 0 <= i < out@.len() ==> out@[i].effect == all[i].serialize_spec().0,
+            forall|i: int| #![auto] 0 <= i < out@.len() ==> !old(registry)@.dom().contains(out@[i].id.0 as usize),
+            // a resolvable request registered earlier in this batch still occupies its id, so the
+            // next id (vacant when taken) differs from it
+            forall|i: int| #![auto] 0 <= i < out@.len() && kind(all[i].serialize_spec().1) != 0 ==> registry@.dom().contains(out@[i].id.0 as usize),
+            forall|i: int, j: int| #![auto] 0 <= i < j < out@.len() && kind(all[i].serialize_spec().1) != 0 && kind(all[j].serialize_spec().1) != 0 ==> out@[i].id.0 != out@[j].id.0,
+            kept(old(registry)@, registry@),
+    {
+        let ghost before = registry@;
+        let eff = effects.remove(0);
+        let request = registry.register(eff);
+        proof {
+            assert(kept(before, registry@));
+        }
+        out.push(request);
+    }
+    out
+}
+
+//@extract id=BridgeWithSerializer file=crux_core/src/bridge/mod.rs item="struct BridgeWithSerializer"
+//@rule X2.vis * s/\n(\s+)(core|registry):/\n\1pub \2:/
+//@end
+
+impl<A> BridgeWithSerializer<A>
+where
+    A: App,
+{
+//@extract id=BridgeWithSerializer::process file=crux_core/src/bridge/mod.rs within="impl<A> BridgeWithSerializer<A>" item="fn process" props=C09+C12
+//@expect fn process( &self, id: Option<EffectId>, data: &mut dyn erased_serde::Deserializer, requests_out: &mut dyn erased_serde::Serializer, ) -> Result<(), BridgeError> where A::Event: for<'a> Deserialize<'a>,
+//@sig fn process(&mut self, id: Option<EffectId>, data: &mut ErasedDeserializer, requests_out: &mut ErasedSerializer) -> (r: Result<(), BridgeError>)
+//@contract
+        requires
+            id is Some ==> old(self).registry@.dom().contains((id->0).0 as usize), // a response to an OUTSTANDING request
+        ensures
+            id is None && (r matches Err(BridgeError::DeserializeEvent(_))) ==> final(self).core == old(self).core && final(self).registry@ == old(self).registry@ && final(requests_out).written() == old(requests_out).written(), // [C12/process/a-rejected-event-leaves-core-registry-and-output-exactly-as-they-were]
+            id is None && r is Err ==> (r matches Err(BridgeError::DeserializeEvent(_))) || (r matches Err(BridgeError::SerializeRequests(_))), // [C12/process/event-path-errors-are-error-values]
+            id is Some && r is Err && !(r matches Err(BridgeError::SerializeRequests(_))) ==> final(self).core == old(self).core && final(requests_out).written() == old(requests_out).written(), // [C12/process/a-rejected-response-never-reaches-the-core]
+            id is Some && r is Err && !(r matches Err(BridgeError::SerializeRequests(_))) ==> (forall|k: usize| #![auto] k != (id->0).0 as usize ==> (final(self).registry@.dom().contains(k) <==> old(self).registry@.dom().contains(k)) && (old(self).registry@.dom().contains(k) ==> final(self).registry@[k] == old(self).registry@[k])), // [C12/process/a-rejected-response-touches-at-most-the-addressed-request]
+            r is Ok ==> final(requests_out).written().len() == old(requests_out).written().len() + 1, // [C09/process/exactly-one-batch-of-requests-written]
+            r is Ok && id is None ==> (forall|i: int| #![auto] 0 <= i < final(requests_out).written().last().len() ==> !old(self).registry@.dom().contains(final(requests_out).written().last()[i] as usize)), // [C09/process/new-ids-distinct-from-every-outstanding-id]
+            id is None ==> kept(old(self).registry@, final(self).registry@), // [C09+C12/process/an-event-never-disturbs-outstanding-requests]
+//@rule X8b.eta * s/\.map_err\(BridgeError::(\w+)\)/.map_err(|e: SerdeError| -> (x: BridgeError) ensures x == BridgeError::\1(e) { BridgeError::\1(e) })/
+//@rule X13.map-collect 1 s/let requests: Vec<_> = effects\s*\.into_iter\(\)\s*\.map\(\|eff\| self\.registry\.register\(eff\)\)\s*\.collect\(\);/let requests = register_all(&mut self.registry, effects);/
+//@rule X13.erased-serialize 1 s/requests\s*\.erased_serialize\(requests_out\)/erased_serialize(&requests, requests_out)/
 //@end
 }
 
